@@ -101,7 +101,9 @@ def setAt {α} (l : List α) (i : Nat) (a : α) : List α := l.set i a
 def spanOf (s : St) : Nat := s.pruneSpan.getD 0
 
 /-- what `pruneRewrite` of plan `pr` does to one pack: planned unmarked packs get marked with the PLAN time, packs planned
-for deletion leave the index -/
+for deletion leave the index; every other pack — in particular a marked pack that stays marked (`KeepMarked`:
+`prune_repository` writes it to the rebuilt index with `into_index_pack`, i.e. WITH its blob list and its old mark time) — is
+listed in the rebuilt index exactly as before.  No branch touches `blobs`. -/
 def rewritePack (pr : Prune) (p : PackSt) : PackSt :=
   if pr.toMark.contains p.id && p.status == .unmarked then { p with status := .marked pr.pn }
   else if pr.toDelete.contains p.id then { p with status := .unlisted }
@@ -171,7 +173,9 @@ def noLoss (s : St) : Bool :=
 
 /-- The follow-up prune in a quiescent state (no running actor), as one atomic step (C02 decision table): marked packs
 holding a blob some snapshot uses are recovered (`Recover`), marked unused packs that are old enough are deleted,
-unmarked unused packs are marked. -/
+unmarked unused packs are marked.  The ORDER of the tests is the code's (`decide_packs`: `(true, 1.., _) => Recover` looks at
+the use only; the age `t + keep_delete ≤ plan time` is tested in the arm `(true, 0, _)`, i.e. for unused packs only): a needed
+marked pack is recovered however old its mark is. -/
 def followupPrune (s : St) : St :=
   { s with packs := s.packs.map (fun p =>
       let used := s.snaps.any (fun c => c.any (fun k => p.blobs.contains k))
@@ -200,5 +204,12 @@ def slowPruneRun : List Step :=
   [.pruneStart [] [1], .tick 3540, .backupStart [k1], .tick 60, .pruneRewrite 0, .pruneEnd 0,
    .tick 79800, .pruneStart [1] [], .pruneRewrite 0, .pruneRemove 0 1, .pruneEnd 0, .tick 60, .backupFinish 0 [k1]]
 
+/-- backup A relies on `k1` (pack 1), the only snapshot using it is forgotten, prune 1 marks pack 1 (time 100); ANOTHER backup
+writes pack 2 and finishes; prune 2 rewrites the index 10 min after prune 1 (pack 1 stays marked); A finishes; 25 h pass.
+(Props/C10 `two_prunes_with_backup_between_keeps`; harness: `bfp` with `Fp.mid_backup` and `Fp.late_followup`.) -/
+def twoPrunesBackupBetween : List Step :=
+  [.tick 100, .backupStart [k1], .forget 0, .pruneStart [] [1], .pruneRewrite 0, .pruneEnd 0, .tick 300, .backupStart [],
+   .backupWrite 1 2 [(Rustic.Repo.BlobType.data, 2)], .backupFinish 1 [(Rustic.Repo.BlobType.data, 2)], .tick 300,
+   .pruneStart [] [], .pruneRewrite 0, .pruneEnd 0, .tick 60, .backupFinish 0 [k1], .tick 90000]
 
 end Rustic.Interleave
